@@ -1017,8 +1017,17 @@ class BaseInterpreter(Generic[TContext, TEvent]):
                 interpreter._actor_sources[actor_id] = record["src"]
 
         # 🌐 Re-register restored actors under their original systemIds.
+        # (The registry lives on the root and also names grandchildren, so
+        #  the restored hierarchy is searched, not just the direct children;
+        #  a grandchild's systemId used to be lost on restore.)
+        restored_by_id: Dict[str, "BaseInterpreter[Any, Any]"] = {}
+        pending_actors = list(interpreter._actors.items())
+        while pending_actors:
+            restored_id, restored = pending_actors.pop()
+            restored_by_id[restored_id] = restored
+            pending_actors.extend(restored._actors.items())
         for system_id, actor_id in (snapshot.get("system") or {}).items():
-            restored_actor = interpreter._actors.get(actor_id)
+            restored_actor = restored_by_id.get(actor_id)
             if restored_actor is not None:
                 interpreter._system[system_id] = restored_actor
 
